@@ -140,7 +140,11 @@ class ExtendedTestResult(Python27TestResult):
         self._tags = TagContext(self._tags)
 
     def stopTest(self, test):
-        self._tags = self._tags.parent
+        # Only leave a test-level context: a stopTest that no startTest
+        # preceded (Python 3.12.1 reports a skipped stdlib test that way) must
+        # not discard the run-level one.
+        if self._tags.parent is not None:
+            self._tags = self._tags.parent
         super().stopTest(test)
 
     @property
